@@ -258,6 +258,10 @@ func (sh *Shared) verifyFunc(fn *ssa.Function, opt Options) (res *FuncResult) {
 		env := entryEnv()
 		env.st = outSt
 		env.old = fr.entry
+		env.lastResult = func(name string) (Val, bool) {
+			v, ok := fr.lastRes[name]
+			return v, ok
+		}
 		fr.bindResults(env, results)
 		for _, c := range sp.Ensures {
 			t, err := env.Goal(c.Expr)
